@@ -43,7 +43,7 @@ warnings.filterwarnings("ignore", category=DeprecationWarning)
 warnings.filterwarnings("ignore", category=UserWarning)
 
 ID = "C20"
-LEAN_TARGETS = ["RV.C20.Props", "RV.C20.TextProps", "RV.C20.Audit"]
+LEAN_TARGETS = ["RV.C20.Props", "RV.C20.TextProps", "RV.C20.ValuesProps", "RV.C20.Audit"]
 AUDIT = "RV/C20/Audit.lean"
 DRIVER = "drv_c20"
 CASES = {"quick": 600, "thorough": 12000, "search": 4000}
@@ -85,6 +85,7 @@ LITS = {
     # braces where `_insert_named_graph` must not see them: a long-quoted literal with a lone quote before a brace,
     # single quotes / hash / braces in a short one
     53: Literal('nl\n" { x } "q'), 54: Literal("sq ' { } # <"), 55: Literal('two\n"" } {'),
+    56: Literal('nl\n" { x'), 57: Literal('nl\n"} x'),
 }
 BNODES = {900: BNode("b900"), 901: BNode("b901")}
 HOOKED = {1000: URIRef("bnode:bb900"), 1001: URIRef("bnode:bb901")}
@@ -222,7 +223,7 @@ def gen_case(rng, tier, i):
                     if kk < 0.45:
                         tr = [_triple(rng, objs, False) for _ in range(rng.randint(1, 2))]
                         if rng.random() < 0.45:      # braces / quotes / hashes inside literals and IRIs
-                            tr[0][2] = rng.choice([44, 53, 54, 55, 36, 42, 25])
+                            tr[0][2] = rng.choice([44, 53, 54, 55, 56, 57, 36, 42, 25])
                             if rng.random() < 0.3:
                                 tr[0][0] = 7
                         lops.append(["I", tr])
@@ -969,8 +970,8 @@ def run_impl(case):
     del ING_STATS[:]
     sess = driver_session(case, captured)
     if ING_STATS:
-        bump("named_graph_rewrites_sent_or_queued", ING_STATS[0][0])
-        bump("named_graph_rewrites_identical_to_lean_model", ING_STATS[0][1])
+        bump("named_graph_rewrites", ING_STATS[0][0])
+        bump("named_graph_rewrites_found_verbatim_in_a_sent_request", ING_STATS[0][1])
     for k_i, op in enumerate(case["ops"]):
         if sess is None:
             obs[k_i] += " ; SENT no-driver"
